@@ -507,4 +507,34 @@ theorem roundTrippable_normSafe_of_parse' (s : Src) (hcr : NoLoneCR s)
       RoundTrippable withJunk (normSafe withJunk (resolve s t)) = true :=
   roundTrippable_normSafe_of_parse s hcr (fun n p els q h => getPattern_mlPattern_join hcr n p els q h) t errs h
 
+/-! ## (6) every source — lone `\r` included -/
+
+/-- **The parser's normalised output is in the class, for EVERY source**: every entry of the tree returned by `parse`
+is Junk, or its `nEntry okSafe` normal form is an entry of the class `rtEntry` (pattern shape:
+`getPattern_mlPattern_joinAll`; comments: `parse_comments_all`). -/
+theorem rtEntry_normSafe_of_parse_all (s : Src) (t : Resource Span) (errs : List PErr)
+    (h : parse s = .done (t, errs)) :
+    ∀ e ∈ t, (∃ c, e = .junk c) ∨ rtEntry (nEntry okSafe (e.mapS (spanBytes s))) = true := by
+  intro e he
+  exact rtEntry_n_of e (parse_valid s t errs h e he)
+    (parse_deep s (PPj s) nvShape (fun n p els q h => getPattern_mlPattern_joinAll s n p els q h)
+      (getInline_literal_shape s) t errs h e he)
+    (parse_comments_all s t errs h e he)
+
+/-- resource form, every source: `normSafe` of the resolved tree is `RoundTrippable withJunk`, provided — when Junk is
+to be serialised — that there is no Junk entry -/
+theorem roundTrippable_normSafe_of_parse_all (s : Src) (t : Resource Span) (errs : List PErr)
+    (h : parse s = .done (t, errs)) :
+    ∀ withJunk : Bool, (withJunk = true → ∀ e ∈ t, ∀ c, e ≠ .junk c) →
+      RoundTrippable withJunk (normSafe withJunk (resolve s t)) = true := by
+  intro withJunk hnj
+  simp only [RoundTrippable, normSafe, nRes, resolve, List.all_eq_true, List.mem_map, List.mem_filter]
+  rintro _ ⟨_, ⟨⟨e, he, rfl⟩, _⟩, rfl⟩
+  rcases rtEntry_normSafe_of_parse_all s t errs h e he with ⟨c, hc⟩ | h'
+  · subst hc
+    cases withJunk with
+    | true => exact absurd rfl (hnj rfl _ he c)
+    | false => simp [Entry.mapS, nEntry, isJunk]
+  · simp [h']
+
 end FluentProofs.Ser
